@@ -452,6 +452,8 @@ func init() {
 			_ = other
 			if !bytes.Equal(got, gotCopy) || !bytes.Equal(again, gotCopy) {
 				rep.Disagree("C01:marshal-output-aliased:"+cls, c.Name+": Marshal output changed after a later Marshal call", info)
+				// ... and what the caller holds is then no longer the schema's serialisation of its value
+				rep.Disagree("C02:bytes-changed-after-later-marshal:"+cls, c.Name+": the bytes Marshal returned were the schema image, and are not any more after another value was serialised", info)
 			}
 			return nil
 		}))
